@@ -210,10 +210,14 @@ func (x *Exec) evCall(st *State, call *ast.CallExpr) []Val {
 		// f(g()) with multi-value g
 		args = x.evMulti(st, call.Args[0], sig.Params().Len())
 	} else {
-		x.rawArgs = nil
+		var raws []Val
 		for i, a := range call.Args {
 			v := x.ev(st, a)
-			x.rawArgs = append(x.rawArgs, v)
+			raws = append(raws, v)
+			if x.rawByCall == nil {
+				x.rawByCall = map[*ast.CallExpr][]Val{}
+			}
+			x.rawByCall[call] = raws
 			if sig != nil {
 				var pt types.Type
 				if sig.Variadic() && i >= sig.Params().Len()-1 {
@@ -249,6 +253,9 @@ func (x *Exec) evCall(st *State, call *ast.CallExpr) []Val {
 		}
 		packed := Val{T: x.vc.mkSlice(srt, arr, x.vc.intLit(n), isnil), Sort: srt, GoT: st0}
 		args = append(args[:min(np-1, len(args))], x.name("varargs", packed))
+	}
+	if len(call.Args) > 0 && !isTuple {
+		x.rawArgs = rawsOf(x, call, args)
 	}
 	rawCopy := append([]Val{}, x.rawArgs...) // interior pointers passed as interface{} are copied out too
 	var results []Val
@@ -944,9 +951,15 @@ func (x *Exec) applyContractSig(st *State, call *ast.CallExpr, sig *types.Signat
 			}
 			at := x.typeOf(call.Args[i])
 			if pt, ok := at.Underlying().(*types.Pointer); ok {
-				hk, _ := x.heapKeyT(pt.Elem())
-				x.heapFor(st, pt.Elem())
-				x.havocKey(st, hk)
+				if i < len(raw) && raw[i].Sort == "Int" {
+					// only the object the argument points to is written
+					nv := x.havocVal(st, "reply", pt.Elem())
+					x.storeRef(st, raw[i], pt.Elem(), nv)
+				} else {
+					hk, _ := x.heapKeyT(pt.Elem())
+					x.heapFor(st, pt.Elem())
+					x.havocKey(st, hk)
+				}
 			}
 		}
 	}
@@ -1145,4 +1158,12 @@ func (x *Exec) fnValueContract(call *ast.CallExpr) *Contract {
 		return x.prog.specs.Contracts[x.contract.PkgPath+"."+base+"."+f.Name]
 	}
 	return nil
+}
+
+// rawsOf: the raw (pre-conversion) argument values of this call as recorded while evaluating them
+func rawsOf(x *Exec, call *ast.CallExpr, args []Val) []Val {
+	if r, ok := x.rawByCall[call]; ok {
+		return r
+	}
+	return x.rawArgs
 }
